@@ -323,6 +323,11 @@ class Lock:
         self.suspend_uncontended = suspend_uncontended
         ctx.locks.append(self)
 
+    falsy = False  # a lock may well be falsy (e.g. __len__ == number of waiters): it is still a lock
+
+    def __bool__(self):
+        return not self.falsy
+
     async def __aenter__(self):
         ctx = self.ctx
         if self.suspend_uncontended:
